@@ -105,6 +105,14 @@ def build_app(track=None):
     def form():
         return 'form=' + ','.join('%s:%s' % kv for kv in sorted(app.request.forms.items()))
 
+    @app.route('/gencookie')
+    def gencookie():
+        # an iterable body, a cookie and a status, but no header of the handler's own
+        m = app.request.query.get('m', 'none')
+        app.response.set_cookie('g' + m, m)
+        app.response.status = 202
+        return iter(['gc-', m])
+
     @app.route('/json', method='POST')
     def json_():
         return 'json=%r' % (app.request.json,)
@@ -150,14 +158,18 @@ def kinds():
         'badchunk_json': lambda m: dict(method='POST', path='/body', qs='m=' + m, stream=b'zz\r\n' + m.encode(), chunked=True, content_length=None,
                                         headers={'Accept': 'application/json'}),
         'oversized_json': lambda m: dict(method='POST', path='/body', qs='m=' + m, body=m.encode() * 200, headers={'Accept': 'application/json'}),
+        'gen_cookie': lambda m: dict(method='GET', path='/gencookie', qs='m=' + m),
+        # uploads cut inside a delimiter line (the parser is left with a partly seen delimiter)
+        'cutmp_in_closing_delimiter': lambda m: dict(method='POST', path='/form', qs='m=' + m, body=mp(m)[:-(4 + len(m) % 3)], content_type='multipart/form-data; boundary=B'),
+        'cutmp_in_first_delimiter': lambda m: dict(method='POST', path='/form', qs='m=' + m, body=mp(m)[:1 + len(m) % 3], content_type='multipart/form-data; boundary=B'),
         'goodjson': lambda m: dict(method='POST', path='/json', content_type='application/json', body=('{"m": "' + m + '"}').encode()),
     }
     return K
 
 
 VARIANTS = ['A1', 'B22xx']      # different lengths: pages that embed the URL differ in size
-SUCCESS = {'ok', 'plain', 'raise', 'head', 'gen', 'form', 'urlform', 'signed', 'goodjson'}
-SHARED_ERR = {'badchunk', 'badmultipart', 'oversized', 'noname_part', 'badjson_json', 'badchunk_json', 'oversized_json'}
+SUCCESS = {'ok', 'plain', 'raise', 'head', 'gen', 'form', 'urlform', 'signed', 'goodjson', 'gen_cookie'}
+SHARED_ERR = {'badchunk', 'badmultipart', 'oversized', 'noname_part', 'badjson_json', 'badchunk_json', 'oversized_json', 'cutmp_in_closing_delimiter', 'cutmp_in_first_delimiter'}
 
 
 def environ_for(K, kind, m, track=None):
